@@ -54,6 +54,14 @@ struct ev_loop {
 	int npend[NUMPRI];
 	int zpend[NUMPRI];
 	int pendingpri;
+
+	/* ev_loop_fork() was called; acted upon at the top of ev_run() */
+	int postfork;
+	/* libev >= 4.31 keeps a timerfd once a periodic has been started
+	 * (to notice clock changes); it is what makes ev_loop_fork()
+	 * reschedule all periodics */
+	int timerfd;
+	ev_watcher timerfd_w;
 };
 
 struct evm_host evm_host;
@@ -251,7 +259,7 @@ ev_loop_destroy(struct ev_loop *l)
 void
 ev_loop_fork(struct ev_loop *l)
 {
-	(void)l;
+	l->postfork = 1;
 }
 
 ev_tstamp
@@ -357,6 +365,64 @@ periodic_recalc(struct ev_loop *l, ev_periodic *w)
 		at = nat;
 	}
 	w->at = at;
+}
+
+static double
+wall(struct ev_loop *l)
+{
+	double t = evm_host.clock ? evm_host.clock() : l->now;
+	return t > l->now ? t : l->now;
+}
+
+static void
+periodics_reschedule(struct ev_loop *l)
+{
+/* libev: "adjust periodics after time jump"; every reschedule callback is
+ * called with the current time, whether or not the watcher has expired */
+	if (evm_host.tr_resched_all) {
+		evm_host.tr_resched_all(1);
+	}
+	for (int i = 0; i < l->nperiodics; i++) {
+		ev_periodic *w = l->periodics[i];
+
+		if (w->reschedule_cb) {
+			double ret = w->reschedule_cb(w, l->now);
+
+			if (evm_host.tr_resched) {
+				evm_host.tr_resched(w, l->now, ret);
+			}
+			w->at = ret;
+		} else if (w->interval) {
+			periodic_recalc(l, w);
+		}
+	}
+	if (evm_host.tr_resched_all) {
+		evm_host.tr_resched_all(0);
+	}
+}
+
+static void
+timerfd_cb(struct ev_loop *l, ev_watcher *w, int revents)
+{
+/* libev timerfdcb(): ev_rt_now = ev_time (); periodics_reschedule (); */
+	(void)w, (void)revents;
+	l->now = wall(l);
+	periodics_reschedule(l);
+}
+
+static void
+loop_fork(struct ev_loop *l)
+{
+/* libev loop_fork(): the timerfd is recreated, evtimerfd_init() calls
+ * timerfdcb() directly and an event is fed to timerfd_w (EV_MINPRI), which
+ * is invoked after all other callbacks of the coming iteration */
+	l->postfork = 0;
+	if (l->timerfd) {
+		timerfd_cb(l, &l->timerfd_w, 0);
+		l->timerfd_w.priority = EV_MINPRI;
+		l->timerfd_w.cb = timerfd_cb;
+		ev_feed_event(l, &l->timerfd_w, EV_CUSTOM);
+	}
 }
 
 static void
@@ -526,6 +592,12 @@ ev_run(struct ev_loop *l, int flags)
 		double w;
 		int b;
 
+		if (l->postfork) {
+			loop_fork(l);
+		}
+		/* libev: "update time to cancel out callback processing
+		 * overhead" before the blocking time is computed */
+		l->now = wall(l);
 		if ((b = earliest_timer(l)) >= 0) {
 			due = l->timers[b]->at;
 		}
@@ -642,6 +714,7 @@ ev_periodic_start(struct ev_loop *l, ev_periodic *w)
 	if (w->active) {
 		return;
 	}
+	l->timerfd = 1;
 	if (w->reschedule_cb) {
 		double ret = w->reschedule_cb(w, l->now);
 		if (evm_host.tr_resched) {
